@@ -38,7 +38,7 @@ class TLCResult(object):
             self.depth = int(m.group(1))
         self.invariant_violated = re.findall(r"Invariant (\S+) is violated", out)
         self.property_violated = ("Temporal properties were violated" in out
-                                  or bool(re.search(r"Action property \S+ is violated", out)))
+                                  or bool(re.search(r"(Action|Temporal) property \S+ (is|was) violated", out)))
         self.deadlock = "Deadlock reached" in out
         self.error = None
         if "Error:" in out and not (self.invariant_violated or self.property_violated or self.deadlock):
